@@ -476,7 +476,13 @@ func (b *Bezier) Polygon() (*Polygon, error) {
 	}
 	// render the splines to a polygon
 	p := NewPolygon()
-	n = len(splines)
+	// the last spline that is a curve keeps its last vertex (trailing points are skipped below)
+	n = 0
+	for i, s := range splines {
+		if s.px.n != 0 || s.py.n != 0 {
+			n = i + 1
+		}
+	}
 	for i, s := range splines {
 		if s.px.n == 0 && s.py.n == 0 {
 			// This is a point, not a curve. Skip it.
